@@ -141,6 +141,9 @@ impl Cfg {
 pub const TOPICS: [&str; 3] = ["t0", "t/1", "topic/2"];
 pub const TIGHT_MPS: u32 = 20;
 /// symbolic pads start here: PAD_AT_LIMIT - k sizes the packet to k bytes under the limit
+/// PAD_PROPS_MIN + k (k = 0..=9): a User Property brings the property section to 122 + k bytes
+/// (v5.0), so that three more bytes of Topic Alias cross the 127/128 length boundary
+pub const PAD_PROPS_MIN: u16 = 0xffe0;
 pub const PAD_SYMBOLIC_MIN: u16 = 0xfff8;
 pub const PAD_AT_LIMIT_MINUS_4: u16 = 0xfffa;
 pub const PAD_AT_LIMIT_MINUS_3: u16 = 0xfffb;
@@ -201,6 +204,13 @@ pub enum Op {
     /// a server application hands over a CONNACK with another Server Keep Alive although no
     /// CONNECT is pending (established connection, or none at all): refused, changes nothing
     ConnackAgain { ska: u16 },
+    /// SUBSCRIBE / UNSUBSCRIBE whose transport write fails while the connection carries on: the
+    /// application gives the id back as `release_packet_id_if_send_error` tells it to
+    SubFailContinue { unsub: bool },
+    /// the application answers an inbound PUBLISH / PUBREL with a long Reason String (v5.0)
+    AppAckBig { nth: u8 },
+    /// ... or with the success-class reason code 0x10 "No matching subscribers" (PUBACK / PUBREC, v5.0)
+    AppAckSoft { nth: u8 },
     Advance { ms: u64 },
     /// the transport is lost; `partial` > 0: the peer's next frame is cut after that many bytes first
     Close { partial: u16 },
@@ -457,7 +467,7 @@ impl Solo {
     fn payload(&mut self, pad: u16) -> Vec<u8> {
         self.tag += 1;
         let mut s = format!("m{}", self.tag).into_bytes();
-        if pad < PAD_SYMBOLIC_MIN {
+        if pad < PAD_PROPS_MIN {
             s.extend(std::iter::repeat(b'x').take(pad as usize));
         }
         s
@@ -592,6 +602,12 @@ impl Solo {
                     p.topic = t.into();
                 }
                 p.payload = self.payload(*pad);
+                if v == 5 && (PAD_PROPS_MIN..PAD_SYMBOLIC_MIN).contains(pad) {
+                    let have: usize = if p.alias().is_some() { 3 } else { 0 };
+                    let want = 122 + (*pad - PAD_PROPS_MIN) as usize;
+                    // User Property: id + two length-prefixed strings ("k", value)
+                    p.props.push(Prop::User("k".into(), "u".repeat(want - have - 6)));
+                }
                 if *qos > 0 {
                     let Some(id) = self.take_id() else { return };
                     p.id = Some(id);
@@ -617,6 +633,22 @@ impl Solo {
                     if any {
                         self.fault("write_failure");
                         self.do_close();
+                    }
+                }
+            }
+            Op::SubFailContinue { unsub } => {
+                if !self.connected() || self.w.want_close || self.w.lenient {
+                    return;
+                }
+                let Some(id) = self.take_id() else { return };
+                let mut p = Pkt::new(v, if *unsub { UNSUBSCRIBE } else { SUBSCRIBE }).with_id(id);
+                p.filters = vec![("t/#".into(), if *unsub { 0 } else { 1 })];
+                let evs = self.app_send_with_id(&p);
+                for e in &evs {
+                    if let Ev::Send { rel: Some(r), .. } = e {
+                        let r = self.w.release(*r);
+                        self.handle(&r);
+                        self.fault("write_failure_connection_continues");
                     }
                 }
             }
@@ -751,6 +783,34 @@ impl Solo {
                 }
                 self.peer_q2.retain(|x| x != id);
                 self.peer_send(&Pkt::new(v, PUBREL).with_id(*id));
+            }
+            Op::AppAckBig { nth } | Op::AppAckSoft { nth } => {
+                if v != 5 || self.w.lenient {
+                    return;
+                }
+                let soft = matches!(op, Op::AppAckSoft { .. });
+                let pend: Vec<usize> = (0..self.inbox.len()).filter(|i| matches!(self.inbox[*i].1, InNeed::Puback | InNeed::Pubrec) || (!soft && self.inbox[*i].1 == InNeed::Pubcomp)).collect();
+                if pend.is_empty() {
+                    return;
+                }
+                let ix = pend[*nth as usize % pend.len()];
+                let (id, need) = self.inbox[ix];
+                let mut p = match need {
+                    InNeed::Puback => Pkt::new(v, PUBACK),
+                    InNeed::Pubrec => Pkt::new(v, PUBREC),
+                    _ => Pkt::new(v, PUBCOMP),
+                }
+                .with_id(id);
+                if soft {
+                    p.rc = Some(0x10);
+                } else {
+                    p.rc = Some(0);
+                    p.props.push(Prop::ReasonString("acknowledged-by-the-application-with-a-rather-long-explanation".into()));
+                }
+                let evs = self.app_send(&p);
+                if !evs.iter().any(|e| e.is_error()) {
+                    self.inbox.remove(ix);
+                }
             }
             Op::AppAck { nth, err } => {
                 let pend: Vec<usize> = (0..self.inbox.len()).filter(|i| matches!(self.inbox[*i].1, InNeed::Puback | InNeed::Pubrec | InNeed::Pubcomp)).collect();
@@ -1381,6 +1441,11 @@ pub fn gen_op(s: &Solo, r: &mut Rng, prof: &GenProfile) -> Op {
             if x < 95 && cfg.f_loss {
                 return Op::Close { partial: 0 };
             }
+            // a timer armed by the CONNECT may expire before the CONNACK arrives
+            let armed: Vec<Tk> = Tk::ALL.iter().cloned().filter(|k| s.deadline[k.ix()].is_some()).collect();
+            if !armed.is_empty() && r.chance(1, 2) {
+                return Op::Timer { k: *r.pick(&armed) };
+            }
             return Op::Acquire;
         }
         St::Connected => {}
@@ -1428,11 +1493,20 @@ pub fn gen_op(s: &Solo, r: &mut Rng, prof: &GenProfile) -> Op {
             if cfg.f_writefail && qos > 0 && r.chance(1, 40) {
                 return Op::PubFailContinue { qos, topic, reg: *r.pick(&[0u32, 0, 65535, 65534]) };
             }
+            if v5 && r.chance(1, 16) {
+                return Op::Pub { qos, topic, alias, pad: PAD_PROPS_MIN + r.below(10) as u16, fail: false };
+            }
             Op::Pub { qos, topic, alias, pad, fail }
         }
         1 => {
             if s.acting_client {
-                if r.chance(1, 2) { Op::Sub } else { Op::Unsub }
+                if cfg.f_writefail && r.chance(1, 10) {
+                    Op::SubFailContinue { unsub: r.chance(1, 2) }
+                } else if r.chance(1, 2) {
+                    Op::Sub
+                } else {
+                    Op::Unsub
+                }
             } else {
                 Op::PeerSimple { kind: if r.chance(1, 2) { SUBSCRIBE } else { UNSUBSCRIBE } }
             }
@@ -1463,7 +1537,13 @@ pub fn gen_op(s: &Solo, r: &mut Rng, prof: &GenProfile) -> Op {
             let pad = if m.mps_recv.is_some() && r.chance(1, 4) { *r.pick(&[PAD_AT_LIMIT_MINUS_1, PAD_AT_LIMIT, PAD_AT_LIMIT, PAD_AT_LIMIT_PLUS_1]) } else if r.chance(1, 5) { r.below(24) as u16 } else { 0 };
             Op::PeerPub { qos, id, dup, topic: r.below(3) as u8, alias, pad }
         }
-        5 => Op::AppAck { nth: r.below(8) as u8, err: r.chance(1, 8) },
+        5 => {
+            if v5 && r.chance(1, 8) {
+                if r.chance(1, 2) { Op::AppAckBig { nth: r.below(8) as u8 } } else { Op::AppAckSoft { nth: r.below(8) as u8 } }
+            } else {
+                Op::AppAck { nth: r.below(8) as u8, err: r.chance(1, 8) }
+            }
+        }
         6 => match r.below(6) {
             0 | 1 => Op::Acquire,
             2 => Op::Register { id: *r.pick(&[0u32, 1, 2, 5, 65535, 65534, 70000, u32::MAX]) },
